@@ -229,6 +229,11 @@ func (st *c01State) forward(calls []rec.Call, hires bool, meta int, desc string)
 	w.Count("forward", 1)
 	m := &c01Metas[meta]
 	e := &st.enc
+	// The Encoder is reused from case to case, and was last abandoned inside a path with a run
+	// of operations pending (as after a Decode into it that failed mid-path): Reset starts afresh.
+	e.StartPath(0, 1, 1)
+	e.RelHLineTo(3)
+	e.RelHLineTo(4)
 	e.Reset(m.vb, m.pal)
 	e.HighResolutionCoordinates = hires
 	want := make([]rec.Call, 0, len(calls)+1)
